@@ -38,6 +38,8 @@ def random_fn(rng, name, profile, helpers=(), in_module=False, forbid_names=()):
     f.deps_kind = rng.choice(P["deps_kinds"])
     if in_module and f.deps_kind.startswith("concrete"):
         f.deps_kind = "generic_ref"
+    if f.deps_kind.startswith("concrete"):
+        f.concrete_ty = rng.choice(["App", "App", "self::App"])
     f.vis = rng.choice(P["vis"])
     if in_module and not f.vis:
         f.vis = "pub"
